@@ -21,7 +21,7 @@ def errsOfCalls (c : Cfg) (cs : List Call) : List Nat :=
 
 /-- one entry per `Extract` invocation that returned a non-empty inventory (packages, or findings only) -/
 def foundOfCalls (c : Cfg) (cs : List Call) : List Nat :=
-  cs.flatMap fun cl => if cl.opened && !((c.extract cl.ext cl.path).pkgs.isEmpty && !(c.extract cl.ext cl.path).other) then [cl.ext] else []
+  cs.flatMap fun cl => if cl.opened && !(c.extract cl.ext cl.path).isEmpty then [cl.ext] else []
 
 theorem pkgsOfCalls_append (c : Cfg) (a b : List Call) : pkgsOfCalls c (a ++ b) = pkgsOfCalls c a ++ pkgsOfCalls c b := by
   simp [pkgsOfCalls, List.flatMap_append]
@@ -38,21 +38,33 @@ theorem bookInv_of_eq (c : Cfg) (base : List Call) (s s' : St) (h : BookInv c ba
     (hp : s'.pkgs = s.pkgs) (he : s'.errs = s.errs) (hf : s'.found = s.found) : BookInv c base s' := by
   unfold BookInv at *; rw [hc, hp, he, hf]; exact h
 
+/-- the findings returned by the `Extract` invocations of a log, tagged with extractor and file -/
+def findsOfCalls (c : Cfg) (cs : List Call) : List Fnd :=
+  cs.flatMap fun cl => if cl.opened then (c.extract cl.ext cl.path).finds.map fun i => ⟨i, cl.ext, cl.path⟩ else []
+
+theorem findsOfCalls_append (c : Cfg) (a b : List Call) : findsOfCalls c (a ++ b) = findsOfCalls c a ++ findsOfCalls c b := by
+  simp [findsOfCalls, List.flatMap_append]
+
+theorem isEmpty_parts (o : ExtractOut) (h : o.isEmpty = true) : o.pkgs = [] ∧ o.finds = [] := by
+  unfold ExtractOut.isEmpty at h
+  simp only [Bool.and_eq_true, List.isEmpty_iff] at h
+  exact ⟨h.1.1, h.2⟩
+
 theorem runExtractor_book (c : Cfg) (hx : NoExtractorPanic c) (f : Faults) (s : St) (e : Nat) (p : Path) (sz : Nat) :
     ∃ cl, (runExtractor c f s e p sz).1.calls = s.calls ++ [cl] ∧
           (runExtractor c f s e p sz).1.pkgs = s.pkgs ++ pkgsOfCalls c [cl] ∧
           (runExtractor c f s e p sz).1.errs = s.errs ++ errsOfCalls c [cl] ∧
-          (runExtractor c f s e p sz).1.found = s.found ++ foundOfCalls c [cl] := by
+          (runExtractor c f s e p sz).1.found = s.found ++ foundOfCalls c [cl] ∧
+          (runExtractor c f s e p sz).1.finds = s.finds ++ findsOfCalls c [cl] := by
   unfold runExtractor
   split
-  · exact ⟨⟨e, p, sz, false⟩, by simp, by simp [pkgsOfCalls], by simp [errsOfCalls], by simp [foundOfCalls]⟩
+  · exact ⟨⟨e, p, sz, false⟩, by simp, by simp [pkgsOfCalls], by simp [errsOfCalls], by simp [foundOfCalls], by simp [findsOfCalls]⟩
   · split
-    · exact ⟨⟨e, p, sz, false⟩, by simp, by simp [pkgsOfCalls], by simp [errsOfCalls], by simp [foundOfCalls]⟩
-    · refine ⟨⟨e, p, sz, true⟩, ?_, ?_, ?_, ?_⟩ <;> simp only [hx e p, Bool.false_eq_true, if_false]
+    · exact ⟨⟨e, p, sz, false⟩, by simp, by simp [pkgsOfCalls], by simp [errsOfCalls], by simp [foundOfCalls], by simp [findsOfCalls]⟩
+    · refine ⟨⟨e, p, sz, true⟩, ?_, ?_, ?_, ?_, ?_⟩ <;> simp only [hx e p, Bool.false_eq_true, if_false]
       · split <;> split <;> split <;> simp
-      · by_cases hk : ((c.extract e p).pkgs.isEmpty && !(c.extract e p).other) = true
-        · have hnil : (c.extract e p).pkgs = [] := by
-            simp only [Bool.and_eq_true, List.isEmpty_iff] at hk; exact hk.1
+      · by_cases hk : (c.extract e p).isEmpty = true
+        · have hnil := (isEmpty_parts _ hk).1
           simp only [hk, if_true]
           split <;> split <;> simp [pkgsOfCalls, hnil]
         · simp only [hk, Bool.false_eq_true, if_false]
@@ -62,21 +74,21 @@ theorem runExtractor_book (c : Cfg) (hx : NoExtractorPanic c) (f : Faults) (s : 
           split <;> split <;> simp [errsOfCalls, he]
         · simp only [he, Bool.false_eq_true, if_false]
           split <;> split <;> simp [errsOfCalls, he]
-      · by_cases hk : ((c.extract e p).pkgs.isEmpty && !(c.extract e p).other) = true
-        · have hk2 : (c.extract e p).pkgs = [] ∧ (c.extract e p).other = false := by simpa using hk
+      · by_cases hk : (c.extract e p).isEmpty = true
+        · simp only [hk, if_true]
+          split <;> split <;> simp [foundOfCalls, hk]
+        · simp only [hk, Bool.false_eq_true, if_false]
+          split <;> split <;> simp [foundOfCalls, hk]
+      · by_cases hk : (c.extract e p).isEmpty = true
+        · have hnil := (isEmpty_parts _ hk).2
           simp only [hk, if_true]
-          split <;> split <;> simp [foundOfCalls, hk2.1, hk2.2]
-        · have hk' : ((c.extract e p).pkgs.isEmpty && !(c.extract e p).other) = false := by
-            cases h : ((c.extract e p).pkgs.isEmpty && !(c.extract e p).other) with
-            | true => exact absurd h hk
-            | false => rfl
-          have hk2 : (c.extract e p).pkgs = [] → (c.extract e p).other = true := by simpa using hk'
-          simp only [hk', Bool.false_eq_true, if_false]
-          split <;> split <;> simp [foundOfCalls] <;> exact hk2
+          split <;> split <;> simp [findsOfCalls, hnil]
+        · simp only [hk, Bool.false_eq_true, if_false]
+          split <;> split <;> simp [findsOfCalls]
 
 theorem runExtractor_bookInv (c : Cfg) (hx : NoExtractorPanic c) (f : Faults) (base : List Call) (s : St) (e : Nat)
     (p : Path) (sz : Nat) (h : BookInv c base s) : BookInv c base (runExtractor c f s e p sz).1 := by
-  obtain ⟨cl, h1, h2, h3, h4⟩ := runExtractor_book c hx f s e p sz
+  obtain ⟨cl, h1, h2, h3, h4, _⟩ := runExtractor_book c hx f s e p sz
   obtain ⟨cur, g1, g2, g3, g4⟩ := h
   refine ⟨cur ++ [cl], ?_, ?_, ?_, ?_⟩
   · rw [h1, g1, List.append_assoc]
